@@ -111,12 +111,6 @@ func (r *fakeRedis) serve(c net.Conn) {
 		case "PING":
 			bw.WriteString("+PONG\r\n")
 		case "GET":
-			select {
-			case d := <-r.getPlan:
-				bw.Flush()
-				time.Sleep(d)
-			default:
-			}
 			r.gets.Add(1)
 			r.mu.Lock()
 			v, ok := r.data[string(args[1])]
@@ -125,6 +119,13 @@ func (r *fakeRedis) serve(c net.Conn) {
 				ok = false
 			}
 			r.mu.Unlock()
+			// the command is executed when it arrives; it is its reply that is slow (the network's doing)
+			select {
+			case d := <-r.getPlan:
+				bw.Flush()
+				time.Sleep(d)
+			default:
+			}
 			if !ok {
 				bw.WriteString("_\r\n")
 			} else {
